@@ -38,6 +38,7 @@ func runC09(c *Ctx) {
 	c01R7As(c, c.R.Rule("R12", "K3 (= C01.R7) a source read of zero records acks nothing: runAckNacker.vote reaches the parent only from inside the per-record walk, so Source.Ack (which indexes the last position) never sees an empty slice", 3))
 	c09R13(c)
 	c01R4As(c, c.R.Rule("R11", "K3 (= C01.R4) v2: a destination (or DLQ) that answers with fewer acks than records written — empty ack responses — never makes DestinationTask.Do return nil: the pass fails instead of acking unconfirmed records", 4))
+	c08R16As(c, c.R.Rule("R14", "K3 (= C08.R16) no reply shape of a conditional processor misattributes results: every return of RunnableProcessor.Process lies behind the `cond == nil` edge or the merge decision, so surplus results never yield an unmerged list that the engines apply to a record the plugin never saw", 1))
 }
 
 // c09R10: only the source task's read may end a pass quietly.
@@ -107,8 +108,36 @@ func c09R8(c *Ctx) {
 // len(in) (a comparison edge, or the padding append).
 func twoSided(c *Ctx, r, key string, fn *ssa.Function, call ssa.CallInstruction, targets []ssa.Instruction) {
 	out, in := call.Value(), call.Common().Args[1]
-	isLenOut := func(v ssa.Value) bool { return kit.IsLenOf(v, func(x ssa.Value) bool { return x == out }) }
 	isLenIn := func(v ssa.Value) bool { return kit.IsLenOf(v, func(x ssa.Value) bool { return x == in }) }
+	// the reply, or the reply merged with a replacement list of exactly len(in) entries
+	var isOut func(x ssa.Value, d int) bool
+	isOut = func(x ssa.Value, d int) bool {
+		if x == ssa.Value(out) {
+			return true
+		}
+		phi, ok := x.(*ssa.Phi)
+		if !ok || d > 3 {
+			return false
+		}
+		hasOut := false
+		for _, e := range phi.Edges {
+			switch {
+			case isOut(e, d+1):
+				hasOut = true
+			default:
+				y := e
+				if sl, ok := y.(*ssa.Slice); ok {
+					y = sl.X
+				}
+				ms, ok := y.(*ssa.MakeSlice)
+				if !ok || !isLenIn(ms.Len) {
+					return false
+				}
+			}
+		}
+		return hasOut
+	}
+	isLenOut := func(v ssa.Value) bool { return kit.IsLenOf(v, func(x ssa.Value) bool { return isOut(x, 0) }) }
 	notMore := kit.NewGates().AddEdges(kit.CmpEdges(fn, func(b *ssa.BinOp) (bool, bool) {
 		switch {
 		case isLenOut(b.X) && isLenIn(b.Y):
@@ -155,6 +184,43 @@ func twoSided(c *Ctx, r, key string, fn *ssa.Function, call ssa.CallInstruction,
 		}
 		return false, false
 	}), "len(out) >= len(in)")
+	// replacement: out = make([]T, len(in)) — the reply is discarded for a list with one entry per record given
+	// (F29: the surplus cannot be attributed, every record that was handed to the plugin gets the error)
+	for _, b := range fn.Blocks {
+		for _, ins := range b.Instrs {
+			if ms, ok := ins.(*ssa.MakeSlice); ok && isLenIn(ms.Len) {
+				// it must take out's place: some phi merges it with the reply
+				replaces := false
+				if refs := ms.Referrers(); refs != nil {
+					for _, u := range *refs {
+						if sl, ok := u.(*ssa.Slice); ok {
+							if r2 := sl.Referrers(); r2 != nil {
+								for _, u2 := range *r2 {
+									if phi, ok := u2.(*ssa.Phi); ok {
+										for _, e := range phi.Edges {
+											if e == out {
+												replaces = true
+											}
+										}
+									}
+								}
+							}
+						}
+						if phi, ok := u.(*ssa.Phi); ok {
+							for _, e := range phi.Edges {
+								if e == out {
+									replaces = true
+								}
+							}
+						}
+					}
+				}
+				if replaces {
+					notMore.AddInstr(ms, "reply replaced by len(in) entries")
+				}
+			}
+		}
+	}
 	// padding: out = append(out, make([]T, len(in)-len(out))...)
 	for _, b := range fn.Blocks {
 		for _, ins := range b.Instrs {
@@ -163,7 +229,7 @@ func twoSided(c *Ctx, r, key string, fn *ssa.Function, call ssa.CallInstruction,
 				continue
 			}
 			bi, ok := call.Call.Value.(*ssa.Builtin)
-			if !ok || bi.Name() != "append" || len(call.Call.Args) != 2 || call.Call.Args[0] != out {
+			if !ok || bi.Name() != "append" || len(call.Call.Args) != 2 || !isOut(call.Call.Args[0], 0) {
 				continue
 			}
 			if ms, ok := call.Call.Args[1].(*ssa.MakeSlice); ok {
